@@ -3768,6 +3768,11 @@ impl<'a> Model<'a> {
                     self.parser.set_lexer_mode(LexerMode::R1C1);
                     let worksheets = &mut self.workbook.worksheets;
                     for worksheet in worksheets {
+                        // A sheet that cannot see the name in its new scope keeps the old spelling: its formulas
+                        // stop resolving either way, and keeping them is what lets the inverse update restore them
+                        if new_sheet_id.is_some() && new_sheet_id != Some(worksheet.sheet_id) {
+                            continue;
+                        }
                         let cell_reference = CellReferenceRC {
                             sheet: worksheet.get_name(),
                             row: 1,
